@@ -40,13 +40,26 @@ Theorem c18_gen_label : forall i j k,
   ge_cform i = CDict -> j < length (ge_circs i) -> k < length (nth j (ge_circs i) []) ->
   bad_label (nth k (nth j (ge_circs i) []) GOther) = true -> api_generate i = Refused.
 Proof. exact gen_label. Qed.
+(* a phased observable in the dictionary form (subsystem j, position k).  In the QuantumCircuit/PauliList form the
+   implementation silently drops the phase (not a documented refusal of this entry point; reconstruct refuses it) *)
+Theorem c18_gen_phase_dict : forall i j k,
+  ge_cform i = CDict -> j < length (ge_phases i) -> k < length (nth j (ge_phases i) []) ->
+  nth k (nth j (ge_phases i) []) 0 <> 0 -> api_generate i = Refused.
+Proof. exact gen_phase_dict. Qed.
+(* observable size mismatch (the qubit-count check of _append_measurement_circuit), k-th observables label *)
+Theorem c18_gen_obs_size : forall i k,
+  ge_cform i <> COther -> k < length (ge_tail i) ->
+  (forall j, j <= k -> fst (nth j (ge_tail i) (true, true)) = true) ->
+  snd (nth k (ge_tail i) (true, true)) = false -> api_generate i = Refused.
+Proof. exact gen_obs_size. Qed.
 Theorem c18_gen_valid_circuit : forall i,
   ge_cform i = CCircuit -> ge_oform i = OPauliList -> b_ge (ge_budget i) Q1 = true ->
-  existsb is_q1 (hd [] (ge_circs i)) = false -> api_generate i = Proceeds.
+  existsb is_q1 (hd [] (ge_circs i)) = false -> gen_tail (ge_tail i) = Proceeds -> api_generate i = Proceeds.
 Proof. exact gen_valid_circuit. Qed.
 Theorem c18_gen_valid_dict : forall i,
   ge_cform i = CDict -> ge_oform i = ODict -> b_ge (ge_budget i) Q1 = true ->
-  existsb (existsb bad_label) (ge_circs i) = false -> api_generate i = Proceeds.
+  existsb (existsb bad_label) (ge_circs i) = false -> existsb any_phase (ge_phases i) = false ->
+  gen_tail (ge_tail i) = Proceeds -> api_generate i = Proceeds.
 Proof. exact gen_valid_dict. Qed.
 
 (* ---------------- partition_problem: labels, observable sizes, phases, classical bits, gates ---------------- *)
@@ -84,10 +97,21 @@ Theorem c18_pp_valid : forall i,
   | None => True end ->
   pp_ncregs i = 0 -> pp_nclbits i = 0 ->
   match pp_labels i with
-  | Some l => existsb (pcq_refuses l) (pp_insts i) = false /\ none_label_used l (pp_insts i) = false
-  | None => True end ->
+  | Some l => existsb (pcq_refuses l) (pp_insts i) = false /\ none_label_used l (pp_insts i) = false /\
+              idle_observable l (pp_support_eff i) = false
+  | None => idle_observable (auto_labels (pp_nq i) (pp_insts i)) (pp_support_eff i) = false end ->
   api_partition_problem i = Proceeds.
 Proof. exact pp_valid. Qed.
+(* fifth guard (idle group): observable j acts non-trivially on a qubit q whose label is None ... *)
+Theorem c18_pp_idle_explicit : forall i l o j q,
+  pp_labels i = Some l -> pp_obs i = Some o -> j < length (pp_support i) -> In q (nth j (pp_support i) []) ->
+  nth q l None = None -> api_partition_problem i = Refused.
+Proof. exact pp_idle_explicit. Qed.
+(* ... or, with automatic labels, on a qubit that no instruction touches *)
+Theorem c18_pp_idle_auto : forall i o j q,
+  pp_labels i = None -> pp_obs i = Some o -> j < length (pp_support i) -> In q (nth j (pp_support i) []) ->
+  q < pp_nq i -> touched (pp_insts i) q = false -> api_partition_problem i = Refused.
+Proof. exact pp_idle_auto. Qed.
 
 (* ---------------- partition_circuit_qubits ---------------- *)
 Theorem c18_pcq_label_count : forall i, length (pq_labels i) <> pq_nq i -> api_pcq i = Refused.
@@ -121,6 +145,11 @@ Theorem c18_cg_unsupported : forall i,
   api_cut_gates i = Refused.
 Proof. exact cg_unsupported. Qed.
 (* F13 (repaired behaviour) *)
+(* the same without the in-range hypothesis: the call never proceeds (ValueError, or IndexError from an earlier id) *)
+Theorem c18_cg_unsupported_total : forall i k,
+  In k (cg_ids i) -> (forall d, nth_error (cg_ops i) k = Some d -> api_from_instruction d = Refused) ->
+  api_cut_gates i <> Proceeds.
+Proof. exact cg_unsupported_total. Qed.
 Theorem c18_cg_frame : forall i, api_cut_gates i <> Proceeds -> cg_final i = repeat false (length (cg_ops i)).
 Proof. exact cg_frame. Qed.
 Theorem c18_cg_valid : forall i,
@@ -242,18 +271,52 @@ Theorem c18_dq_map_count : forall i ms,
   length (dq_ids i) <> length ms -> api_decompose i = Refused.
 Proof. exact dq_map_count. Qed.
 (* map index outside the basis: the j-th map id, for any gate k of the j-th decomposition *)
-Theorem c18_dq_map_range : forall i ms j k b n bid,
+Theorem c18_dq_map_range : forall i ms j k b n bid z,
   api_validate_qpd (dq_circ i) (dq_ids i) = Proceeds -> dq_maps i = Some ms ->
   j < length (dq_ids i) -> In k (nth j (dq_ids i) []) -> nth_error (dq_circ i) k = Some (DQ b n bid) ->
-  (nth j ms 0 < 0 \/ Z.of_nat n <= nth j ms 0)%Z ->
+  nth j ms None = Some z -> (z < 0 \/ Z.of_nat n <= z)%Z ->
   api_decompose i = Refused.
 Proof. exact dq_map_range. Qed.
-(* F7 (repaired behaviour): a validation failure leaves the argument untouched, also with inplace=True *)
-Theorem c18_dq_frame : forall i, api_decompose i <> Proceeds -> dq_final i = dq_circ i.
-Proof. exact dq_frame. Qed.
+(* a None ENTRY of map_ids is refused by the same pre-validation *)
+Theorem c18_dq_map_none : forall i ms j k b n bid,
+  api_validate_qpd (dq_circ i) (dq_ids i) = Proceeds -> dq_maps i = Some ms ->
+  j < length (dq_ids i) -> In k (nth j (dq_ids i) []) -> nth_error (dq_circ i) k = Some (DQ b n bid) ->
+  nth j ms None = None -> api_decompose i = Refused.
+Proof. exact dq_map_none. Qed.
+(* map_ids omitted and some gate (any position k) has no basis_id: refused before any rewriting *)
+Theorem c18_dq_unset_no_maps : forall i k b n,
+  api_validate_qpd (dq_circ i) (dq_ids i) = Proceeds -> dq_maps i = None ->
+  nth_error (dq_circ i) k = Some (DQ b n None) ->
+  api_decompose i = Refused /\ dq_final i = dq_circ i.
+Proof. exact dq_unset_no_maps. Qed.
+(* the same four classes of _validate_qpd_instructions without the in-range hypothesis: never Proceeds *)
+Theorem c18_dq_group_size_total : forall i g,
+  In g (dq_ids i) -> length g <> 1 -> length g <> 2 -> api_decompose i <> Proceeds.
+Proof.
+  intros i g H1 H2 H3. apply (decompose_not_ok_of_group i g H1). rewrite (dq_group_size _ g H2 H3). discriminate.
+Qed.
+Theorem c18_dq_non_qpd_total : forall i g k,
+  In g (dq_ids i) -> In k g -> nth_error (dq_circ i) k = Some DOther -> api_decompose i <> Proceeds.
+Proof. intros i g k H1 H2 H3. apply (decompose_not_ok_of_group i g H1). eapply dq_group_non_qpd_total; eauto. Qed.
+(* F7 (repaired behaviour): a refusal leaves the argument untouched, also with inplace=True.
+   With map_ids omitted the argument is untouched at this point in every case. *)
+Theorem c18_dq_frame_no_maps : forall i, dq_maps i = None -> dq_final i = dq_circ i.
+Proof. exact dq_frame_no_maps. Qed.
+(* PARTIAL: with map_ids given, the frame is proved for every refusal of the validation and of the map-id
+   pre-check; missing: that the unset-basis_id check cannot fire AFTER the assignment loop.  It cannot when every
+   QPD gate occurs in instruction_ids (then every gate has just been assigned); with duplicate indices
+   ([[0],[0]] on two gates) the count check passes, gate 1 stays unset and the ValueError comes after gate 0 was
+   assigned.  The hypothesis below excludes exactly that; c18_dq_frame derives it from coverage. *)
+Theorem c18_dq_frame_partial : forall i,
+  api_decompose i <> Proceeds ->
+  (dq_maps i = None \/
+   forall ms, dq_maps i = Some ms -> existsb dq_unset (dq_assign (dq_circ i) (combine (dq_ids i) ms)) = false) ->
+  dq_final i = dq_circ i.
+Proof. exact dq_frame_partial. Qed.
 Theorem c18_dq_valid : forall i ms,
   api_validate_qpd (dq_circ i) (dq_ids i) = Proceeds -> dq_maps i = Some ms ->
   length (dq_ids i) = length ms -> dq_check (dq_circ i) (combine (dq_ids i) ms) = true ->
+  existsb dq_unset (dq_assign (dq_circ i) (combine (dq_ids i) ms)) = false ->
   api_decompose i = Proceeds /\ dq_final i = dq_assign (dq_circ i) (combine (dq_ids i) ms).
 Proof. exact dq_valid_maps. Qed.
 
@@ -334,7 +397,21 @@ Definition cxd : gate_desc := mkGD true false true true true.       (* cx *)
 Definition rzz_unbound : gate_desc := mkGD true true false true true.
 Definition ccxd : gate_desc := mkGD false false true false true.
 (* F7 witness: two CX placeholders, map ids [0; 9] *)
-Definition f7_input : dq_in := mkDq [DQ 0 6 None; DQ 0 6 None] [[0]; [1]] (Some [0; 9]%Z).
+Definition f7_input : dq_in := mkDq [DQ 0 6 None; DQ 0 6 None] [[0]; [1]] (Some [Some 0; Some 9]%Z).
+(* the reviewer's inputs: a None entry; no map_ids with an unset id on the later gate *)
+Example c18_ex_map_none :
+  let i := mkDq [DQ 0 6 None; DQ 0 6 None] [[0]; [1]] (Some [Some 0%Z; None]) in
+  api_decompose i = Refused /\ dq_final i = dq_circ i.
+Proof. split; reflexivity. Qed.
+Example c18_ex_unset_later :
+  let i := mkDq [DQ 0 6 (Some 2); DQ 0 6 None] [[0]; [1]] None in
+  api_decompose i = Refused /\ dq_final i = dq_circ i.
+Proof. split; reflexivity. Qed.
+(* why c18_dq_frame needs coverage: duplicate indices pass the count check and leave gate 1 unset *)
+Example c18_ex_duplicate_ids_break_frame :
+  let i := mkDq [DQ 0 6 None; DQ 0 6 None] [[0]; [0]] (Some [Some 1%Z; Some 2%Z]) in
+  api_decompose i = Refused /\ dq_final i = [DQ 0 6 (Some 2); DQ 0 6 None].
+Proof. split; reflexivity. Qed.
 Example c18_ex_f7_repaired : api_decompose f7_input = Refused /\ dq_final f7_input = dq_circ f7_input.
 Proof. split; reflexivity. Qed.
 (* the interleaved (unrepaired) loop refuses too, but has already set gate 0's basis_id *)
@@ -361,9 +438,18 @@ Example c18_f13_interleaved_breaks_frame : cg_run_interleaved f13_input = (Refus
 Proof. reflexivity. Qed.
 (* the only phased observable is the last of three *)
 Example c18_ex_phase_last :
-  api_partition_problem (mkPp 2 (Some [Some 0; Some 1]) (Some [(2, 0); (2, 0); (2, 3)]) 0 0 [mkG (KOp cxd) [0; 1]]) = Refused
-  /\ api_partition_problem (mkPp 2 (Some [Some 0; Some 1]) (Some [(2, 0); (2, 0); (2, 0)]) 0 0 [mkG (KOp cxd) [0; 1]]) = Proceeds.
+  api_partition_problem (mkPp 2 (Some [Some 0; Some 1]) (Some [(2, 0); (2, 0); (2, 3)]) 0 0 [mkG (KOp cxd) [0; 1]] [[0]; [1]; []]) = Refused
+  /\ api_partition_problem (mkPp 2 (Some [Some 0; Some 1]) (Some [(2, 0); (2, 0); (2, 0)]) 0 0 [mkG (KOp cxd) [0; 1]] [[0]; [1]; []]) = Proceeds.
 Proof. split; reflexivity. Qed.
+(* idle group: x(0) on two qubits, labels [A; None]; "ZI" acts on the idle qubit 1, "IZ" does not;
+   the same with automatic labels *)
+Definition xd : gate_desc := mkGD false false true false true.
+Example c18_ex_idle :
+  api_partition_problem (mkPp 2 (Some [Some 0; None]) (Some [(2, 0)]) 0 0 [mkG (KOp xd) [0]] [[1]]) = Refused /\
+  api_partition_problem (mkPp 2 (Some [Some 0; None]) (Some [(2, 0)]) 0 0 [mkG (KOp xd) [0]] [[0]]) = Proceeds /\
+  api_partition_problem (mkPp 2 None (Some [(2, 0)]) 0 0 [mkG (KOp xd) [0]] [[1]]) = Refused /\
+  api_partition_problem (mkPp 2 None (Some [(2, 0)]) 0 0 [mkG (KOp xd) [0]] [[0]]) = Proceeds.
+Proof. repeat split; reflexivity. Qed.
 Example c18_ex_budget : api_generate_qpd_weights (BNum (1 # 2)) = Refused /\ api_generate_qpd_weights (BNum (3 # 2)) = Proceeds
   /\ api_generate_qpd_weights BInf = Proceeds.
 Proof. repeat split; reflexivity. Qed.
@@ -374,7 +460,7 @@ Proof. split; reflexivity. Qed.
 
 Print Assumptions c18_weights_lt1. Print Assumptions c18_gen_budget_lt1. Print Assumptions c18_pp_phase.
 Print Assumptions c18_pcq_wide_gate. Print Assumptions c18_cg_unsupported. Print Assumptions c18_fc_wide_gate.
-Print Assumptions c18_rc_counts. Print Assumptions c18_dq_map_range. Print Assumptions c18_dq_frame.
+Print Assumptions c18_rc_counts. Print Assumptions c18_dq_map_range. Print Assumptions c18_dq_frame_partial.
 Print Assumptions c18_basis_ragged. Print Assumptions c18_q1_half. Print Assumptions c18_sep_none_used.
 Print Assumptions c18_mgo_size.
 
@@ -390,19 +476,12 @@ Proof. reflexivity. Qed.
 Example guards_cut_gates : guards_of "cutting_decomposition:cut_gates" =
   ["len(circuit.cregs) != 0 or circuit.num_clbits != 0"].
 Proof. reflexivity. Qed.
-(* the validation head is modelled; the F4 repair (C10) adds one later site, which belongs to "the rest" *)
-Definition pp_head : list string :=
+Example guards_partition_problem : guards_of "cutting_decomposition:partition_problem" =
   ["partition_labels is not None and len(partition_labels) != circuit.num_qubits";
    "observables is not None and any((len(obs) != circuit.num_qubits for obs in observables))";
    "observables is not None and any((obs.phase != 0 for obs in observables))";
-   "len(circuit.cregs) != 0 or circuit.num_clbits != 0"].
-(* the extracted list is one of the given alternatives (boolean, so that the proof is a plain `reflexivity`) *)
-Definition guards_in (f : string) (alts : list (list string)) : bool :=
-  existsb (list_beq String.eqb (guards_of f)) alts.
-Example guards_partition_problem :
-  guards_in "cutting_decomposition:partition_problem"
-     [pp_head; (pp_head ++ ["idle_observables is not None and (idle_observables.x.any() or idle_observables.z.any())"])%list]
-  = true.
+   "len(circuit.cregs) != 0 or circuit.num_clbits != 0";
+   "idle_observables is not None and any((obs.x.any() or obs.z.any() for obs in idle_observables))"].
 Proof. reflexivity. Qed.
 Example guards_generate : guards_of "cutting_experiments:generate_cutting_experiments" =
   ["isinstance(circuits, QuantumCircuit) and (not isinstance(observables, PauliList))";
@@ -411,6 +490,14 @@ Example guards_generate : guards_of "cutting_experiments:generate_cutting_experi
 Proof. reflexivity. Qed.
 Example guards_mapping_ids : guards_of "cutting_experiments:_get_mapping_ids_by_partition" =
   ["except (AttributeError, ValueError): decomp_id = int(inst.operation.label.split('_')[-1])"].
+Proof. reflexivity. Qed.
+(* only the first site is reachable from generate_cutting_experiments (qubit_locations is None there, the
+   register is created by _append_measurement_register): gen_tail models it *)
+Example guards_append_measurement : guards_of "cutting_experiments:_append_measurement_circuit" =
+  ["qc.num_qubits != cog.general_observable.num_qubits";
+   "len(qubit_locations) != cog.general_observable.num_qubits";
+   "for-else: reg in qc.cregs";
+   "obs_creg.size != len(pauli_indices)"].
 Proof. reflexivity. Qed.
 Example guards_get_bases : guards_of "cutting_experiments:_get_bases" = ["isinstance(inst.operation, SingleQubitQPDGate)"].
 Proof. reflexivity. Qed.
@@ -429,6 +516,9 @@ Example guards_validate_qpd : guards_of "qpd.decompose:_validate_qpd_instruction
    "not isinstance(circuit.data[gate_id].operation, BaseQPDGate)";
    "compare_basis != tmp_basis";
    "qpd_gate_total != num_qpd_gates"].
+Proof. reflexivity. Qed.
+Example guards_decompose_internal : guards_of "qpd.decompose:_decompose_qpd_instructions" =
+  ["isinstance(inst.operation, BaseQPDGate) and inst.operation.basis_id is None"].
 Proof. reflexivity. Qed.
 Example guards_from_instruction : guards_of "qpd.decompositions:qpdbasis_from_instruction" =
   ["except Exception: mat = gate.to_matrix()"; "always"].
@@ -484,20 +574,24 @@ Proof. reflexivity. Qed.
 (* every ValueError-raising function of the anchored files is either modelled above or listed here
    (internal helpers whose checks are not argument validation of a public entry point) *)
 Definition unmodelled : list string :=
-  ["cutting_experiments:_append_measurement_circuit"; "qpd.decompose:_decompose_qpd_instructions";
-   "qpd.decompositions:_nonlocal_qpd_basis_from_u"; "qpd.decompositions:_u_from_thetavec"].
+  ["qpd.decompositions:_nonlocal_qpd_basis_from_u"; "qpd.decompositions:_u_from_thetavec"].
 Example every_raise_site_accounted_for :
   forallb (fun p => existsb (String.eqb (fst p)) (map fst c18_guards ++ unmodelled)%list) value_error_sites = true.
 Proof. reflexivity. Qed.
 
-(* decompose_qpd_instructions: the length guard, optionally followed by the F7 repair's pre-check of every map id
-   (before the assignment loop).  Both shapes are accepted here because the source may carry F7 either as a
-   repair or as a listed known finding; WHICH behaviour the source has is decided by the correspondence check
-   (repaired model chk_dq, or the interleaved model chk_dq_current when KNOWN_FINDINGS lists F7). *)
-Theorem c18_facts_decompose_guards :
-  guards_in "qpd.decompose:decompose_qpd_instructions"
-     [["len(instruction_ids) != len(map_ids)"];
-      ["len(instruction_ids) != len(map_ids)"; "map_ids[i] is not None and map_ids[i] not in range(num_maps)"]]
-  = true.
+(* the number of raise sites of every modelled function equals the length of its modelled guard list
+   (a deleted or added raise inside a modelled function breaks this even when no guard text changes) *)
+Definition sites_of (f : string) : nat :=
+  match find (fun p => String.eqb (fst p) f) value_error_sites with Some p => snd p | None => 0 end.
+Example raise_site_counts :
+  forallb (fun p => Nat.eqb (sites_of (fst p)) (length (snd p)) ||
+                    String.eqb (fst p) "automated_cut_finding:find_cuts" ||
+                    String.eqb (fst p) "cut_finding.cut_optimization:cut_optimization_next_state_func") c18_guards = true.
+Proof. reflexivity. Qed.
+
+(* decompose_qpd_instructions: the length guard, then the pre-validation of every map id (None entries included)
+   BEFORE the assignment loop (F7 repair 417f876 + 32107ac). *)
+Theorem c18_facts_decompose_guards : guards_of "qpd.decompose:decompose_qpd_instructions" =
+  ["len(instruction_ids) != len(map_ids)"; "map_ids[i] is None or map_ids[i] not in range(num_maps)"].
 Proof. reflexivity. Qed.
 Print Assumptions c18_facts_decompose_guards.
